@@ -102,6 +102,24 @@ def block_bounds(prog: Program, rep: Report, C: ClassInfo, fi: FuncInfo, clause:
     return n_ob
 
 
+def _flat_poly(t):
+    """Polynomial of a term in which a substitution left a polynomial nested inside a polynomial's atom."""
+    from fractions import Fraction
+    from ..sym import Poly
+    if isinstance(t, tuple) and t and t[0] == "poly":
+        total = Poly.const(Fraction(0))
+        for mono, coef in t[1]:
+            m = Poly.const(Fraction(*coef) if isinstance(coef, tuple) else Fraction(coef))
+            for atom, pw in mono:
+                if not isinstance(pw, int) or pw < 0:
+                    return term_to_poly(t)
+                for _ in range(pw):
+                    m = m * _flat_poly(atom)
+            total = total + m
+        return total
+    return term_to_poly(t)
+
+
 def run(prog: Program, rep: Report, tier: str):
     rep.trusted += ["torch.linspace(a, b, n + 1)[i + 1] <= b; numpy Generator.integers(lo, hi) draws from [lo, hi)",
                     "multiprocessing.Value.get_lock() serialises the increments of all holders of the counter"]
@@ -277,22 +295,28 @@ def dino(prog: Program, rep: Report):
     if loops:
         LN, nd = loops[0]
         it = fa.sym.term(nd.owner.iter, cfg.stmt_node[nd.owner])
-        budget = None
-        if it[0] == "call" and it[1] == ("global", "range") and len(it[2]) == 1:
-            b_ = it[2][0]
-            if b_[0] == "call" and b_[1] == ("global", "int") and len(b_[2]) == 1:
-                budget = term_to_poly(b_[2][0])
         want_atoms = {("self", "num_views"), ("self", "mask_prob")}
-        good_budget = budget is not None and want_atoms <= set(budget.atoms()) and len(budget.terms) == 1 and \
-            len(budget.atoms()) == 3 and all(p_ == 1 for mono in budget.terms for _, p_ in mono)
+        good_budget = True
+        # a sample count assigned in both arms of 'if isinstance(x, list)' is judged arm by arm
+        for it_ in fa.alternatives(it):
+            budget = None
+            if it_[0] == "call" and it_[1] == ("global", "range") and len(it_[2]) == 1:
+                b_ = it_[2][0]
+                if b_[0] == "call" and b_[1] == ("global", "int") and len(b_[2]) == 1:
+                    budget = _flat_poly(b_[2][0])
+            good_budget = good_budget and budget is not None and want_atoms <= set(budget.atoms()) and len(budget.terms) == 1 and \
+                len(budget.atoms()) == 3 and all(p_ == 1 for mono in budget.terms for _, p_ in mono)
         tgt_names = [y.id for y in ast.walk(nd.owner.target) if isinstance(y, ast.Name)]
         good_target = isinstance(writes[0][3], ast.Name) and writes[0][3].id in tgt_names[:1]
         counted_otherwise = not (it[0] == "call" and it[1] == ("global", "range"))
         rt = fa.sym.term(lc.generators[0].iter, ln_)
-        total_ok = False
-        if rt[0] == "call" and rt[1] == ("global", "range") and len(rt[2]) == 1:
-            tp = term_to_poly(rt[2][0])
-            total_ok = ("self", "num_views") in tp.atoms() and ("self", "mask_prob") not in tp.atoms() and len(tp.terms) == 1
+        total_ok = True
+        for rt_ in fa.alternatives(rt):
+            ok_ = False
+            if rt_[0] == "call" and rt_[1] == ("global", "range") and len(rt_[2]) == 1:
+                tp = _flat_poly(rt_[2][0])
+                ok_ = ("self", "num_views") in tp.atoms() and ("self", "mask_prob") not in tp.atoms() and len(tp.terms) == 1
+            total_ok = total_ok and ok_
         ok = good_budget and good_target and total_ok
         if counted_otherwise and good_target and total_ok:
             ok = None  # the number of generated masks is fixed by the length of another sequence (e.g. the ratio bins)
